@@ -8,6 +8,7 @@ import (
 	"strconv"
 	"strings"
 	"unicode"
+	"unicode/utf16"
 	"unicode/utf8"
 
 	"github.com/robertkrimen/otto/ast"
@@ -777,6 +778,26 @@ func parseStringLiteral(literal string) (string, error) {
 				}
 				if value > utf8.MaxRune {
 					panic("value > utf8.MaxRune")
+				}
+				// A high surrogate escape followed by a low surrogate escape denotes one
+				// supplementary code point (the two code units of ECMA 262 5.1 - 7.8.4).
+				if utf16.IsSurrogate(value) && len(str) >= 6 && str[0] == '\\' && str[1] == 'u' {
+					var low rune
+					valid := true
+					for j := 2; j < 6; j++ {
+						decimal, ok := hex2decimal(str[j])
+						if !ok {
+							valid = false
+							break
+						}
+						low = low<<4 | decimal
+					}
+					if valid {
+						if pair := utf16.DecodeRune(value, low); pair != utf8.RuneError {
+							value = pair
+							str = str[6:]
+						}
+					}
 				}
 			case '0':
 				if len(str) == 0 || '0' > str[0] || str[0] > '7' {
